@@ -970,8 +970,10 @@ def is_number(value):
         number = float(value)
     except (ValueError, TypeError):
         return False
-    # the texts 'inf', 'nan', 'Infinity' ... are not numbers to Excel
-    return not isinstance(value, str) or math.isfinite(number)
+    # the texts 'inf', 'nan', 'Infinity' ... are not numbers to Excel,
+    # nor is '1_000' (the digit grouping of a python literal)
+    return not isinstance(value, str) or (
+        math.isfinite(number) and '_' not in value)
 
 
 def coerce_to_number(value, convert_all=False):
@@ -994,6 +996,10 @@ def coerce_to_number(value, convert_all=False):
     # True and False strings become numbers
     if convert_all and value.upper() in ('TRUE', 'FALSE', EMPTY):
         return int(len(value) == 4)
+
+    if '_' in value:
+        # '1_000' is a number to python's int() and float() only
+        return value
 
     try:
         if '.' not in value:
